@@ -6,7 +6,7 @@ Import ListNotations.
 Definition set_sites : list site := [
   ((s "sharepoint2text/parsing/extractors/archive_extractor.py"), (s "<module>"), (85)%Z, UAnyAll);
   ((s "sharepoint2text/parsing/extractors/archive_extractor.py"), (s "<module>"), (101)%Z, UNone);
-  ((s "sharepoint2text/parsing/extractors/data_types.py"), (s "DocxContent.iterate_units"), (965)%Z, UMember);
+  ((s "sharepoint2text/parsing/extractors/data_types.py"), (s "DocxContent.iterate_units"), (959)%Z, UMember);
   ((s "sharepoint2text/parsing/extractors/epub_extractor.py"), (s "<module>"), (120)%Z, UMember);
   ((s "sharepoint2text/parsing/extractors/epub_extractor.py"), (s "<module>"), (123)%Z, UMember);
   ((s "sharepoint2text/parsing/extractors/epub_extractor.py"), (s "<module>"), (126)%Z, UMember);
@@ -28,12 +28,12 @@ Definition set_sites : list site := [
   ((s "sharepoint2text/parsing/extractors/ms_legacy/ppt_extractor.py"), (s "_parse_ppt_document"), (364)%Z, UMember);
   ((s "sharepoint2text/parsing/extractors/ms_legacy/rtf_extractor.py"), (s "_RtfParser.<class>"), (215)%Z, UAnyAll);
   ((s "sharepoint2text/parsing/extractors/ms_legacy/xls_extractor.py"), (s "_extract_images_from_workbook"), (348)%Z, UMember);
-  ((s "sharepoint2text/parsing/extractors/ms_modern/docx_extractor.py"), (s "<module>"), (172)%Z, UMember);
-  ((s "sharepoint2text/parsing/extractors/ms_modern/docx_extractor.py"), (s "<module>"), (175)%Z, UMember);
-  ((s "sharepoint2text/parsing/extractors/ms_modern/docx_extractor.py"), (s "_extract_formulas_from_context"), (971)%Z, UMember);
-  ((s "sharepoint2text/parsing/extractors/ms_modern/docx_extractor.py"), (s "read_docx"), (1026)%Z, USorted);
-  ((s "sharepoint2text/parsing/extractors/ms_modern/docx_extractor.py"), (s "_extract_images_from_context"), (925)%Z, USorted);
-  ((s "sharepoint2text/parsing/extractors/ms_modern/docx_extractor.py"), (s "_extract_images_from_context"), (884)%Z, USorted);
+  ((s "sharepoint2text/parsing/extractors/ms_modern/docx_extractor.py"), (s "<module>"), (177)%Z, UMember);
+  ((s "sharepoint2text/parsing/extractors/ms_modern/docx_extractor.py"), (s "<module>"), (180)%Z, UMember);
+  ((s "sharepoint2text/parsing/extractors/ms_modern/docx_extractor.py"), (s "_extract_formulas_from_context"), (989)%Z, UMember);
+  ((s "sharepoint2text/parsing/extractors/ms_modern/docx_extractor.py"), (s "read_docx"), (1044)%Z, USorted);
+  ((s "sharepoint2text/parsing/extractors/ms_modern/docx_extractor.py"), (s "_extract_images_from_context"), (943)%Z, USorted);
+  ((s "sharepoint2text/parsing/extractors/ms_modern/docx_extractor.py"), (s "_extract_images_from_context"), (902)%Z, USorted);
   ((s "sharepoint2text/parsing/extractors/ms_modern/pptx_extractor.py"), (s "<module>"), (192)%Z, UMember);
   ((s "sharepoint2text/parsing/extractors/ms_modern/pptx_extractor.py"), (s "<module>"), (195)%Z, UMember);
   ((s "sharepoint2text/parsing/extractors/ms_modern/pptx_extractor.py"), (s "<module>"), (198)%Z, UMember);
@@ -47,9 +47,9 @@ Definition set_sites : list site := [
   ((s "sharepoint2text/parsing/extractors/open_office/odg_extractor.py"), (s "_extract_images"), (106)%Z, UMember);
   ((s "sharepoint2text/parsing/extractors/open_office/odp_extractor.py"), (s "<module>"), (171)%Z, UMember);
   ((s "sharepoint2text/parsing/extractors/open_office/ods_extractor.py"), (s "<module>"), (179)%Z, UMember);
-  ((s "sharepoint2text/parsing/extractors/open_office/odt_extractor.py"), (s "<module>"), (242)%Z, UMember);
-  ((s "sharepoint2text/parsing/extractors/open_office/odt_extractor.py"), (s "_extract_images_from_context"), (479)%Z, UMember);
-  ((s "sharepoint2text/parsing/extractors/open_office/odt_extractor.py"), (s "_extract_styles_from_context"), (677)%Z, USorted);
+  ((s "sharepoint2text/parsing/extractors/open_office/odt_extractor.py"), (s "<module>"), (244)%Z, UMember);
+  ((s "sharepoint2text/parsing/extractors/open_office/odt_extractor.py"), (s "_extract_images_from_context"), (481)%Z, UMember);
+  ((s "sharepoint2text/parsing/extractors/open_office/odt_extractor.py"), (s "_extract_styles_from_context"), (679)%Z, USorted);
   ((s "sharepoint2text/parsing/extractors/pdf/pdf_extractor.py"), (s "_assign_digit_glyphs"), (394)%Z, UMember);
   ((s "sharepoint2text/parsing/extractors/pdf/pdf_extractor.py"), (s "_TableExtractor.<class>"), (895)%Z, UMember);
   ((s "sharepoint2text/parsing/extractors/pdf/pdf_extractor.py"), (s "_TableExtractor._split_compound_words"), (1392)%Z, UMember);
@@ -70,8 +70,8 @@ Definition nd_sites : list nd_site := [
   ((s "sharepoint2text/parsing/extractors/archive_extractor.py"), (s "read_archive"), (580)%Z, (s "time.perf_counter"), SLog);
   ((s "sharepoint2text/parsing/extractors/html_extractor.py"), (s "_HtmlTextExtractor._find_nodes"), (307)%Z, (s "id()"), SIdentityKey);
   ((s "sharepoint2text/parsing/extractors/html_extractor.py"), (s "_HtmlTextExtractor._find_node"), (324)%Z, (s "id()"), SIdentityKey);
-  ((s "sharepoint2text/parsing/extractors/ms_modern/docx_extractor.py"), (s "_extract_formulas_from_context"), (984)%Z, (s "id()"), SIdentityKey);
-  ((s "sharepoint2text/parsing/extractors/ms_modern/docx_extractor.py"), (s "_extract_formulas_from_context"), (977)%Z, (s "id()"), SIdentityKey);
+  ((s "sharepoint2text/parsing/extractors/ms_modern/docx_extractor.py"), (s "_extract_formulas_from_context"), (1002)%Z, (s "id()"), SIdentityKey);
+  ((s "sharepoint2text/parsing/extractors/ms_modern/docx_extractor.py"), (s "_extract_formulas_from_context"), (995)%Z, (s "id()"), SIdentityKey);
   ((s "sharepoint2text/parsing/extractors/ms_modern/pptx_extractor.py"), (s "_extract_formulas_from_element"), (673)%Z, (s "id()"), SIdentityKey);
   ((s "sharepoint2text/parsing/extractors/ms_modern/pptx_extractor.py"), (s "_extract_formulas_from_element"), (666)%Z, (s "id()"), SIdentityKey);
   ((s "sharepoint2text/parsing/extractors/pdf/_pypdf_aes_fallback.py"), (s "_cryptaes_encrypt"), (844)%Z, (s "secrets.token_bytes"), SEncryptOnly)
@@ -89,8 +89,8 @@ Definition stream_sites : list stream_site := [
   ((s "sharepoint2text/parsing/extractors/html_extractor.py"), (s "read_html"), (631)%Z, (s "read"));
   ((s "sharepoint2text/parsing/extractors/mail/eml_email_extractor.py"), (s "read_eml_format_mail"), (261)%Z, (s "seek"));
   ((s "sharepoint2text/parsing/extractors/mail/eml_email_extractor.py"), (s "read_eml_format_mail"), (262)%Z, (s "getvalue"));
-  ((s "sharepoint2text/parsing/extractors/mail/mbox_email_extractor.py"), (s "read_mbox_format_mail"), (496)%Z, (s "seek"));
-  ((s "sharepoint2text/parsing/extractors/mail/mbox_email_extractor.py"), (s "read_mbox_format_mail"), (497)%Z, (s "read"));
+  ((s "sharepoint2text/parsing/extractors/mail/mbox_email_extractor.py"), (s "read_mbox_format_mail"), (517)%Z, (s "seek"));
+  ((s "sharepoint2text/parsing/extractors/mail/mbox_email_extractor.py"), (s "read_mbox_format_mail"), (518)%Z, (s "read"));
   ((s "sharepoint2text/parsing/extractors/mail/msg_email_extractor.py"), (s "read_msg_format_mail"), (379)%Z, (s "seek"));
   ((s "sharepoint2text/parsing/extractors/mail/msg_email_extractor.py"), (s "read_msg_format_mail"), (380)%Z, (s "read"));
   ((s "sharepoint2text/parsing/extractors/mhtml_extractor.py"), (s "read_mhtml"), (268)%Z, (s "seek"));
@@ -101,15 +101,15 @@ Definition stream_sites : list stream_site := [
   ((s "sharepoint2text/parsing/extractors/ms_legacy/ppt_extractor.py"), (s "_extract_ppt_content_structured"), (259)%Z, (s "seek"));
   ((s "sharepoint2text/parsing/extractors/ms_legacy/ppt_extractor.py"), (s "_extract_ppt_metadata"), (675)%Z, (s "seek"));
   ((s "sharepoint2text/parsing/extractors/ms_legacy/ppt_extractor.py"), (s "_extract_ppt_metadata"), (680)%Z, (s "seek"));
-  ((s "sharepoint2text/parsing/extractors/ms_legacy/rtf_extractor.py"), (s "read_rtf"), (881)%Z, (s "seek"));
-  ((s "sharepoint2text/parsing/extractors/ms_legacy/rtf_extractor.py"), (s "read_rtf"), (882)%Z, (s "read"));
+  ((s "sharepoint2text/parsing/extractors/ms_legacy/rtf_extractor.py"), (s "read_rtf"), (885)%Z, (s "seek"));
+  ((s "sharepoint2text/parsing/extractors/ms_legacy/rtf_extractor.py"), (s "read_rtf"), (886)%Z, (s "read"));
   ((s "sharepoint2text/parsing/extractors/ms_legacy/xls_extractor.py"), (s "_read_content"), (203)%Z, (s "read"));
   ((s "sharepoint2text/parsing/extractors/ms_legacy/xls_extractor.py"), (s "read_xls"), (296)%Z, (s "seek"));
   ((s "sharepoint2text/parsing/extractors/ms_legacy/xls_extractor.py"), (s "read_xls"), (300)%Z, (s "seek"));
   ((s "sharepoint2text/parsing/extractors/ms_legacy/xls_extractor.py"), (s "read_xls"), (301)%Z, (s "read"));
   ((s "sharepoint2text/parsing/extractors/ms_legacy/xls_extractor.py"), (s "_extract_images_from_workbook"), (329)%Z, (s "seek"));
   ((s "sharepoint2text/parsing/extractors/ms_legacy/xls_extractor.py"), (s "_extract_images_from_workbook"), (333)%Z, (s "seek"));
-  ((s "sharepoint2text/parsing/extractors/ms_modern/docx_extractor.py"), (s "read_docx"), (1007)%Z, (s "seek"));
+  ((s "sharepoint2text/parsing/extractors/ms_modern/docx_extractor.py"), (s "read_docx"), (1025)%Z, (s "seek"));
   ((s "sharepoint2text/parsing/extractors/ms_modern/pptx_extractor.py"), (s "read_pptx"), (944)%Z, (s "seek"));
   ((s "sharepoint2text/parsing/extractors/ms_modern/xlsx_extractor.py"), (s "_read_metadata"), (313)%Z, (s "seek"));
   ((s "sharepoint2text/parsing/extractors/ms_modern/xlsx_extractor.py"), (s "_read_content"), (525)%Z, (s "seek"));
@@ -120,7 +120,7 @@ Definition stream_sites : list stream_site := [
   ((s "sharepoint2text/parsing/extractors/open_office/odg_extractor.py"), (s "read_odg"), (203)%Z, (s "seek"));
   ((s "sharepoint2text/parsing/extractors/open_office/odp_extractor.py"), (s "read_odp"), (502)%Z, (s "seek"));
   ((s "sharepoint2text/parsing/extractors/open_office/ods_extractor.py"), (s "read_ods"), (549)%Z, (s "seek"));
-  ((s "sharepoint2text/parsing/extractors/open_office/odt_extractor.py"), (s "read_odt"), (786)%Z, (s "seek"));
+  ((s "sharepoint2text/parsing/extractors/open_office/odt_extractor.py"), (s "read_odt"), (778)%Z, (s "seek"));
   ((s "sharepoint2text/parsing/extractors/pdf/pdf_extractor.py"), (s "_open_pdf_reader"), (220)%Z, (s "seek"));
   ((s "sharepoint2text/parsing/extractors/pdf/pdf_extractor.py"), (s "_open_pdf_reader"), (228)%Z, (s "seek"));
   ((s "sharepoint2text/parsing/extractors/pdf/pdf_extractor.py"), (s "_should_skip_images"), (248)%Z, (s "getbuffer().nbytes"));
